@@ -31,6 +31,11 @@ class Pipe(chan.ChannelScenario):
         S.send_alts = tuple(p.get("send_alts") or ())
         if p.get("monitor_buffers"):
             self.monitor_extra = ("buffers",)
+        if p.get("fault_menu"):
+            sites = set(p.get("fault_sites", ["send"]))
+            S.fault_menu = tuple(p["fault_menu"])
+            S.max_faults = p.get("max_faults", 1)
+            S.fault_sites = lambda sock, op: sock.name == "c1" and op in sites
 
     def programs(self):
         progs = {"*": dict(body=[b"ok"])}
@@ -96,7 +101,13 @@ class Pipe(chan.ChannelScenario):
             n = len(data)
             if n > track["max_write"]:
                 track["max_write"] = n
-            return orig_ws(data)
+            r = orig_ws(data)
+            # the producer waits until the backlog is at or below the mark, then
+            # appends: right after a write at most mark + this write is pending
+            t = ch.total_outbufs_len
+            if t > srv.adj.outbuf_high_watermark + n and track["worst"] is None:
+                track["worst"] = (t, srv.adj.outbuf_high_watermark, n)
+            return r
 
         ch.write_soon = write_soon
         for flag in p.get("release", []):
@@ -123,7 +134,7 @@ class Pipe(chan.ChannelScenario):
         for name, exc, tb in S.crashed:
             v.append((f"thread-died:{name.split('-')[0]}", f"{name} died: {exc}\n{tb[-400:]}"))
         for lvl, msg in W.log:
-            if lvl in ("ERROR", "CRITICAL"):
+            if lvl in ("ERROR", "CRITICAL") and not msg.startswith("Socket error"):
                 first = msg.strip().splitlines()[0][:80]
                 last = msg.strip().splitlines()[-1][:120]
                 v.append((f"logged-error:{first.split(' ')[0]}", f"server logged: {first} ... {last}"))
@@ -212,6 +223,9 @@ def scenarios(tier):
     exp_head = req(2, "POST", extra=["Expect: 100-continue", "Content-Length: 5"])
     S.append(("PE[expect after GET]", dict(pre=(req(1) + exp_head).decode("latin-1"), segments=[("hello", "after100")], workers=1, lookahead=0), 2))
     S.append(("PE[expect after GET,lookahead=1]", dict(pre=(req(1) + exp_head).decode("latin-1"), segments=[("hello", "after100")], workers=1, lookahead=1), 1 if q else 2))
+    # output large enough to migrate through the buffer representations while partly sent
+    S.append(("P2[migrating outbuf,slow client]", dict(pre=two, workers=1, lookahead=0, window=3000, drains=[4000, None], adj=dict(outbuf_overflow=12000),
+              programs={"/r1": dict(body=["a" * 5000, "b" * 5000, "c" * 5000, "d" * 5000], cl=True)}), 1))
     if not q:
         S.append(("P2[poll2]", dict(pre=two, workers=1, lookahead=0, poll2=True), 2))
         S.append(("P2[buffers monitored]", dict(pre=two, workers=1, lookahead=0, monitor_buffers=True, send_alts=["one"]), 2))
